@@ -37,7 +37,7 @@ def run(chk):
                        'seed files are produced by the library Writer from seeded data sets (XML, osc, PBF plain/dense/locations-on-ways, OPL) plus the o5m fixtures, each also truncated at 4 positions']
     req = ['reader_runs', 'pieces_delivered', 'exhaustive_cut_pairs', 'fixed_size_runs', 'random_plan_runs', 'one_piece_runs_ok', 'one_piece_runs_error']
     if len(bins) > 1:
-        req += ['fd_runs', 'short_reads']
+        req += ['fd_runs', 'short_reads', 'multi_member_files_with_empty_members', 'multi_member_buffer_runs']
     return chk.finish('exploration',
                       'piece-delivering Decompressor registered through CompressionFactory: for files <= 256 bytes every single cut and every pair of cuts (exhaustive), fixed piece sizes {1,2,3,5,7,8,9,10,11,4095,4096,4097} on every file, seeded random cut sequences; plus the real plain/gzip/bzip2 fd decompressors with input_buffer_size 1/7/4096 (hook H3) and read(2) wrapped to return short counts (covers PBF read_exactly). distinct = enumerated cut plans (by construction) + hashes of random plans',
                       required_counters=req, extra=dict(exhaustive_for_small_files=True))
